@@ -65,7 +65,14 @@ var c14MultiVerbs = []rune{'é', '世', '×'}
 // verb mode 0: symbolic ASCII letter; 1..3: a multi-byte verb.
 // Flags are five symbolic booleans.
 func H_c14(p []int) {
-	st := &hState{plus: vBool(), minus: vBool(), sharp: vBool(), space: vBool(), zero: vBool()}
+	var st *hState
+	if len(p) > 4 && p[4] > 0 {
+		// concrete flags (mask p[4]-1) and, below, a concrete verb
+		m := p[4] - 1
+		st = &hState{plus: m&1 != 0, minus: m&2 != 0, sharp: m&4 != 0, space: m&8 != 0, zero: m&16 != 0}
+	} else {
+		st = &hState{plus: vBool(), minus: vBool(), sharp: vBool(), space: vBool(), zero: vBool()}
+	}
 	if w := c14Widths[p[0]]; w >= 0 {
 		st.wid, st.widOK = w, true
 	}
@@ -73,7 +80,9 @@ func H_c14(p []int) {
 		st.prec, st.precOK = pr, true
 	}
 	var verb rune
-	if p[2] == 0 {
+	if len(p) > 5 && p[5] > 0 {
+		verb = rune(p[5])
+	} else if p[2] == 0 {
 		c := vByte()
 		vAssume(vOr(vAnd(c >= 'a', c <= 'z'), vAnd(c >= 'A', c <= 'Z')))
 		vAssume(vAnd(vAnd(c != 'T', c != 'p'), c != 'w'))
